@@ -60,8 +60,10 @@ class Radix(object):
         return [n.prefix for n in self._d.values()]
 
     def __contains__(self, key):
+        # environment assumption T9 (DESIGN.md 7): `address in tree` is what yabgp's BGP.ip_longest_match presumes it to be,
+        # "some stored prefix covers it"
         try:
-            return self.search_exact(key) is not None
+            return self.search_best(key) is not None
         except ValueError:
             return False
 
